@@ -658,6 +658,29 @@ def rule_workers(ctx, prop):
                                         "<std::io::Stdin as std::io::Read>::read_to_string"})
                     rep.inst(f"{cl.key} sends format result", {"roots": sorted(calls)[:5]}, cfg, ok=okv)
         rep.floor("worker closures", n, 2, cfg)
+        # a panicking formatter job is noticed through panic_count() of the pool that ran it
+        def _pool_roots(o):
+            return {r[2] for r in provenance(f, o, into_aggs=False) if r[0] == "call" and r[1].endswith("ThreadPool::new")}
+        pcs = [(b, t) for b, t in f.calls() if callee(t).endswith("ThreadPool::panic_count")]
+        if rep.anchor(len(pcs) >= 1, "ThreadPool::panic_count in format", cfg):
+            counted = set()
+            for b, t in pcs:
+                counted |= _pool_roots(t["args"][0])
+            for b, t in f.calls():
+                if callee(t) != "threadpool::ThreadPool::execute":
+                    continue
+                cls = [prog.fn("stylua", r[1][len("closure "):]) for r in provenance(f, t["args"][1], through=None, into_aggs=False)
+                       if r[0] == "agg" and r[1].startswith("closure ")]
+                if not cls or any(c is None or _is_output_closure(prog, c) for c in cls):
+                    continue
+                roots = _pool_roots(t["args"][0])
+                okc = bool(roots) and roots <= counted
+                rep.inst(f"{cls[0].key} runs on the pool whose panic_count decides the exit status", None, cfg, ok=okc)
+                if not okc:
+                    rep.violation(f"{cls[0].key} job-pool-panics-not-counted",
+                                  "a formatting job is executed on a ThreadPool whose panic_count() is never consulted (the exit "
+                                  "status reads another pool's): a file whose formatting panics keeps its bytes, is reported nowhere, "
+                                  "and the run exits 0", f.loc(t["sp"]), cfg)
         oc = _output_closure(prog)
         if rep.anchor(oc is not None, "output closure", cfg):
             # the loop header = block calling Iterator::next on the receiver; every return is reached only via
@@ -757,6 +780,27 @@ def rule_walk(ctx, prop, dedup_only=False):
             # (closure upvar provenance shares a root with the contains key)
         if dedup_only:
             continue     # C19: one job per file (two jobs on one file race on its contents); the selection clauses are C16's
+        # (1b) every path argument becomes a walker root: a root (depth 0) is what exempts an explicitly named file from the
+        # ignore / hidden / glob filters, so `WalkBuilder::add` runs for every element of opt.files[1..]
+        adds = [(b, t) for b, t in f.calls() if re.search(r"WalkBuilder::add$", callee(t))]
+        if rep.anchor(len(adds) == 1, f"one WalkBuilder::add call in format ({len(adds)})", cfg):
+            ab, at = adds[0]
+            dom_ = f.dominators()
+            hs = [b for b, t in f.calls() if re.search(r"Iterator>::next$|iter::Iterator::next$", callee(t))
+                  and b in dom_.get(ab, ()) and b in f.reach_from(ab)]
+            if rep.anchor(bool(hs), "loop over opt.files[1..] around WalkBuilder::add", cfg):
+                h = max(hs, key=lambda x: len(dom_.get(x, ())))
+                nxt = f.blocks[h]["term"].get("t")
+                skipping = nxt is not None and h in f.reach_from(nxt, avoid={ab})
+                src = prov_calls(provenance(f, f.blocks[h]["term"]["args"][0]))
+                okr = not skipping
+                rep.inst("stylua::format every path argument is added as a walker root", {"loop_over": sorted(c.split("::")[-1] for c in src)[:4]}, cfg, ok=okr)
+                if not okr:
+                    rep.violation("stylua::format path-argument-not-added-as-root",
+                                  "the loop over the path arguments can return to its head without calling WalkBuilder::add: an "
+                                  "argument that is skipped is reached, if at all, only through another argument's directory walk, "
+                                  "where .styluaignore / hidden / glob filters apply - an explicitly named file is silently "
+                                  "left unformatted", f.loc(at["sp"]), cfg)
         # (2) default glob constants
         inis = [g for g in prog.fns("stylua") if g.path.endswith("__static_ref_initialize") and
                 any(callee(t) == "globset::Glob::new" for _, t in g.calls())]
